@@ -886,7 +886,9 @@ def rule_J(ctx):
 
     def O(k):
         return absint.real_obs(ctx, fn, Pos(1.0 + k, 10.0 - 2.0 * k, 0.5 * k), Stamp(100.0 + 3.0 * k), k=k)          # the repository's own Obs
-    VAL = {'a': [3.0, -1.5, 4.0, 2.0], 'b': [2.0, 2.0, -4.0, 1.0], 'c': [10.0, 20.0, 30.0, 50.0]}
+    VAL = {'a': [3.0, -1.5, 4.0, 2.0], 'b': [2.0, 2.0, -4.0, 1.0], 'c': [10.0, 20.0, 30.0, 50.0],
+           # (names a user may well choose: letters that are also coordinate names put together, a '#' inside the name)
+           'xy': [1.0, 5.0, -2.0, 8.0], 'lap#2': [7.0, 7.5, 8.0, 9.0], 'zt': [0.5, 0.25, 4.0, -1.0]}
 
     def mk(order):
         t = T([O(k) for k in range(N)], 'u', 't')
@@ -1010,10 +1012,19 @@ def rule_J(ctx):
              # long expressions: more than ten, and more than a hundred, evaluator temporaries (#0 ... #11, #0 ... #101)
              ('q=' + '+'.join(['a', 'b'] * 6 + ['a']), 'q', lambda: [7 * x + 6 * y for x, y in zip(VAL['a'], VAL['b'])]),
              ('+'.join(['a', 'b'] * 6 + ['a']), None, None),
-             ('b=' + '+'.join(['a'] * 103), 'b', lambda: [103 * x for x in VAL['a']])]
+             ('b=' + '+'.join(['a'] * 103), 'b', lambda: [103 * x for x in VAL['a']]),
+             # reflexive operators whose right-hand side is itself an expression: a op= rhs is a = a op (rhs)
+             ('a-=b-c', 'a', lambda: [x - (y - z) for x, y, z in zip(VAL['a'], VAL['b'], VAL['c'])]),
+             ('c*=b+1', 'c', lambda: [z * (y + 1) for y, z in zip(VAL['b'], VAL['c'])]),
+             ('a/=c*2', 'a', lambda: [x / (z * 2) for x, z in zip(VAL['a'], VAL['c'])]),
+             ('b+=a', 'b', lambda: [x + y for x, y in zip(VAL['a'], VAL['b'])])]
+    # ... and on a track whose features carry less tidy names
+    exprs2 = [('xy=xy*2', 'xy', lambda: [2 * v for v in VAL['xy']]), ('xy=a', 'xy', lambda: list(VAL['a'])), ('zt=a+xy', 'zt', lambda: [x + v for x, v in zip(VAL['a'], VAL['xy'])]),
+              ('q=a+a', 'q', lambda: [2 * x for x in VAL['a']]), ('a=xy*zt', 'a', lambda: [u * v for u, v in zip(VAL['xy'], VAL['zt'])]), ('a*2', None, None),
+              ('xy*=zt', 'xy', lambda: [u * v for u, v in zip(VAL['xy'], VAL['zt'])])]
     n_ex = 0
-    for order in orders_ + [('a', 'c', 'b')]:
-        for text, target, want in exprs:
+    for order in orders_ + [('a', 'c', 'b'), ('xy', 'lap#2', 'a', 'zt'), ('a', 'zt', 'lap#2', 'xy')]:
+        for text, target, want in (exprs2 if 'xy' in order else exprs):
             t = mk(order)
             before = snap(t)
             label = 'operate(%r) on features in column order %s' % (text, '/'.join(order))
